@@ -21,7 +21,7 @@ use std::time::{Duration, Instant};
 
 pub fn defs() -> Vec<ScenDef> {
     let d = |name, f, fire| ScenDef { name, f, fire, gate_sites: &[], pool_cap: None, only_sites: &[] };
-    vec![d("io", io as fn(&mut Exec) -> Res, false), d("tcp", tcp, false), d("dgram", dgram, false), d("iot", iot, false), d("iocan", iocan, true), d("unixsrv", unixsrv, false), d("iochurn", iochurn, false)]
+    vec![d("io", io as fn(&mut Exec) -> Res, false), d("tcp", tcp, false), d("dgram", dgram, false), d("iot", iot, false), d("iocan", iocan, true), d("unixsrv", unixsrv, false), d("iochurn", iochurn, false), d("iocant", iocant, true)]
 }
 
 type Grave = Arc<std::sync::Mutex<Vec<Box<dyn Any + Send>>>>;
@@ -1013,6 +1013,92 @@ fn iochurn(x: &mut Exec) -> Res {
     io_verdict(x, r)?;
     if let Some(e) = err.lock().unwrap().take() {
         return viol(format!("stream I/O under descriptor churn: {}", e));
+    }
+    Ok(())
+}
+
+// ------------------------------------------------------------------------------------ C18 cancel of a timed operation, socket lives on
+/// a coroutine blocked in a *timed* receive on a shared socket is cancelled; the socket outlives it and is used again,
+/// with other time-outs, before and after the deadline of the cancelled operation has passed: the cancelled
+/// operation's timer must not make any later operation fail or return early
+fn iocant(x: &mut Exec) -> Res {
+    let sock = Arc::new(UdpSocket::bind("127.0.0.1:0").map_err(|e| Fail::Inconclusive(format!("bind: {}", e)))?);
+    let addr = sock.local_addr().map_err(|e| Fail::Inconclusive(format!("addr: {}", e)))?;
+    let d1 = x.rng.range(3, 8); // ms, the operation that gets cancelled
+    let cancel_after_us = x.rng.below(d1 * 500);
+    let laters: Vec<(u64, bool, u64)> = (0..x.rng.range(1, 3)).map(|_| (x.rng.range(4, 14), x.rng.chance(1, 3), x.rng.below(2500))).collect(); // (timeout ms, datagram sent in time, pause before us)
+    x.io_timeout_used(Duration::from_millis(d1));
+    for l in &laters {
+        x.io_timeout_used(Duration::from_millis(l.0));
+    }
+    let s1 = sock.clone();
+    let (_, target) = x.spawn_co("target", move |act| {
+        s1.set_read_timeout(Some(Duration::from_millis(d1))).unwrap();
+        let mut buf = [0u8; 8];
+        act.call("recv_from", s1.as_raw_fd() as u64);
+        let _ = s1.recv_from(&mut buf);
+        act.ret("recv_from", 0, 0);
+        loop {
+            coroutine::park();
+        }
+    });
+    x.desc = format!("udp: timed recv ({}ms) cancelled after <= {}us, the shared socket then does timed recvs (ms, datagram in time, pause us) {:?}", d1, cancel_after_us, laters);
+    wait_fire(cancel_after_us);
+    unsafe { target.coroutine().cancel() };
+    {
+        let t2 = &target;
+        let r = x.wait_cond(&|| t2.is_done());
+        io_verdict(x, r)?;
+    }
+    match target.join() {
+        Err(e) if is_cancel_panic(&e) => {}
+        Err(_) => return viol("cancel of a timed recv: join() reported a non-Cancel panic"),
+        Ok(_) => return viol("cancel of a timed recv: join() of the cancelled endless target returned Ok"),
+    }
+    let err = Arc::new(std::sync::Mutex::new(None::<String>));
+    let (s2, e2, laters2) = (sock.clone(), err.clone(), laters.clone());
+    x.spawn("later", true, move |act| {
+        let sender = std::net::UdpSocket::bind("127.0.0.1:0").unwrap();
+        for (i, (ms, with_data, pause)) in laters2.iter().enumerate() {
+            nap(*pause);
+            s2.set_read_timeout(Some(Duration::from_millis(*ms))).unwrap();
+            if *with_data {
+                let _ = sender.send_to(&[i as u8; 4], addr);
+            }
+            let mut buf = [0u8; 8];
+            let t0 = Instant::now();
+            act.call("recv_from", s2.as_raw_fd() as u64);
+            let r = s2.recv_from(&mut buf);
+            let el = t0.elapsed();
+            act.ret("recv_from", 0, r.is_ok() as u64);
+            match r {
+                Ok((4, _)) if *with_data => {}
+                Ok((n, _)) => {
+                    *e2.lock().unwrap() = Some(format!("recv #{} returned {} bytes (datagram sent: {})", i, n, with_data));
+                    return;
+                }
+                Err(e) if e.kind() == std::io::ErrorKind::TimedOut || e.kind() == std::io::ErrorKind::WouldBlock => {
+                    if *with_data {
+                        // sent before the call on loopback: it is there
+                        *e2.lock().unwrap() = Some(format!("recv #{} timed out after {:?} although its datagram had been sent before the call", i, el));
+                        return;
+                    }
+                    if el < Duration::from_millis(*ms) {
+                        *e2.lock().unwrap() = Some(format!("recv #{} with a {}ms time-out failed with TimedOut after {:?} (the timer of the cancelled {}ms operation hit it)", i, ms, el, d1));
+                        return;
+                    }
+                }
+                Err(e) => {
+                    *e2.lock().unwrap() = Some(format!("recv #{} failed with {:?}", i, e.kind()));
+                    return;
+                }
+            }
+        }
+    });
+    let r = x.wait_all();
+    io_verdict(x, r)?;
+    if let Some(e) = err.lock().unwrap().take() {
+        return viol(format!("timed I/O after the cancel of a timed operation on the same socket: {}", e));
     }
     Ok(())
 }
